@@ -92,6 +92,8 @@ type progInfo struct {
 type interpreter struct {
 	*progInfo
 	globals map[*ssa.Global]*value // addresses of global variables
+	lazyInited map[*ssa.Package]bool
+	forceInit  *ssa.Package
 	mode    Mode
 	path    *pathState
 }
@@ -495,7 +497,7 @@ func callSSA(i *interpreter, caller *frame, callpos token.Pos, fn *ssa.Function,
 		fr.thread = p.sched.cur
 	}
 	if fn.Parent() == nil {
-		if fn.Synthetic == "package initializer" && !strings.HasPrefix(pkgPathOf(fn), i.initPrefix) {
+		if fn.Synthetic == "package initializer" && !strings.HasPrefix(pkgPathOf(fn), i.initPrefix) && !(i.forceInit != nil && fn.Pkg == i.forceInit) {
 			return nil // init of packages outside the code under test is not executed
 		}
 		if ext := findExternal(i, fn); ext != nil {
@@ -658,9 +660,34 @@ func (i *interpreter) globalAddr(g *ssa.Global) *value {
 		i.globals[g] = v
 		return v
 	}
+	// packages of the request path (echo and its middleware) get their own
+	// package initialiser run the first time one of their globals is touched:
+	// their error values, default configs and handler variables are set by it.
+	if g.Pkg != nil && inList(g.Pkg.Pkg.Path(), lazyInitPkgs) && !i.lazyInited[g.Pkg] {
+		if i.lazyInited == nil {
+			i.lazyInited = map[*ssa.Package]bool{}
+		}
+		i.lazyInited[g.Pkg] = true
+		if f := g.Pkg.Func("init"); f != nil {
+			prev := i.forceInit
+			i.forceInit = g.Pkg
+			call(i, nil, token.NoPos, f, nil)
+			i.forceInit = prev
+		}
+		if v, ok := i.globals[g]; ok {
+			return v
+		}
+	}
 	cell := zero(mustDeref(g.Type()))
 	i.globals[g] = &cell
 	return &cell
+}
+
+// lazyInitPkgs: packages outside the code under test whose package
+// initialiser is executed on first use of one of their globals.
+var lazyInitPkgs = []string{
+	"github.com/labstack/echo/v4",
+	"github.com/labstack/echo/v4/middleware",
 }
 
 func mustDeref(t types.Type) types.Type {
